@@ -204,7 +204,8 @@ class C01(TrainCase):
 
 class C04(TrainCase):
     pid = 'C04'
-    gen_kw = dict(restarts=0.25, extras=0.6, scheduler=0.15, max_ops=10)
+    gen_kw = dict(restarts=0.25, extras=0.6, scheduler=0.15, max_ops=10,
+                  low_precision=0.08)
     force_monitors = {'read_factors': True}
     expected_probes = ['factor_comparisons', 'factor_unchanged_checks',
                        'eval_pass']
@@ -271,7 +272,8 @@ class C07(TrainCase):
 
 class C10(TrainCase):
     pid = 'C10'
-    gen_kw = dict(restarts=0.0, extras=0.8, scheduler=0.1, max_ops=6)
+    gen_kw = dict(restarts=0.0, extras=0.8, scheduler=0.1, max_ops=6,
+                  low_precision=0.1)
     force_monitors = {'twin': True}
     expected_probes = ['twin_compared', 'eval_pass']
     rule = ('seeded module trees (conv/linear/BN/LN/embedding/frozen/'
@@ -298,7 +300,7 @@ class C13(TrainCase):
 class C03(TrainCase):
     pid = 'C03'
     gen_kw = dict(restarts=0.35, extras=0.8, scheduler=0.2, max_ops=12,
-                  min_world=2, callables=0.5)
+                  min_world=2, callables=0.5, low_precision=0.08)
     expected_probes = ['restarts', 'memory_query_subset', 'eval_pass',
                        'checkpoint_saved', 'straggler_stall',
                        'cross_group_reorder', 'job_crash_and_restart']
@@ -352,12 +354,89 @@ class C19(TrainCase):
     pid = 'C19'
     gen_kw = dict(restarts=0.2, extras=1.0, scheduler=1.0, callables=0.3,
                   max_ops=10, max_world=2)
-    expected_probes = ['sched_steps_checked']
+    expected_probes = ['sched_steps_checked', 'refusal_checks',
+                       'expdecay_values_checked']
     rule = ('seeded histories with a LambdaParamScheduler over random '
             'subsets of constant hyper-parameters, explicit and implicit '
             'step arguments, checkpoint round-trips; every public '
             'hyper-parameter compared with the reference after each '
-            'scheduler step')
+            'scheduler step; constructor refusal of parameters that are '
+            'already functions; enumerated sweep of '
+            'exp_decay_factor_averaging over steps 0..10^4 x caps '
+            '(labelled enumeration of a pure function)')
+
+    def fixed_plans(self, tier: str) -> list[dict[str, Any]]:
+        caps = [0.95, 1.0, 0.5, 0.3, 1e-3, 2.0, 0.999999]
+        return [{'kind': 'expdecay_sweep', 'cap': c,
+                 'hi': 10000 if tier == 'quick' else 200000} for c in caps
+                ] + [{'kind': 'sched_refuse', 'seed': i} for i in range(8)]
+
+    def brief(self, plan: dict[str, Any]) -> Any:
+        return plan if plan['kind'] != 'train' else super().brief(plan)
+
+    def legal(self, plan: dict[str, Any]) -> bool:
+        return plan['kind'] != 'train' or super().legal(plan)
+
+    def evaluate(self, plan: dict[str, Any], tapes: Any = None) -> Outcome:
+        if plan['kind'] == 'train':
+            return super().evaluate(plan, tapes)
+        oc = Outcome()
+
+        def bad(clause: str, **d: Any) -> None:
+            oc.violations.append({'clause': clause, 'props': ['C19'], **d})
+
+        if plan['kind'] == 'expdecay_sweep':
+            from kfac.hyperparams import exp_decay_factor_averaging
+
+            cap = plan['cap']
+            f = exp_decay_factor_averaging(cap)
+            prev = None
+            for k in list(range(0, 300)) + list(range(300, plan['hi'], 97)):
+                v = f(k)
+                want = min(1 - 1 / max(k, 1), cap)
+                oc.stats['expdecay_values_checked'] += 1
+                if v != want or not (0 <= v <= cap):
+                    bad('C19.expdecay_value', k=k, cap=cap, got=v, want=want)
+                    break
+                if prev is not None and v < prev:
+                    bad('C19.expdecay_not_monotone', k=k, cap=cap)
+                    break
+                prev = v
+            for badcap in (0, -1.0):
+                try:
+                    exp_decay_factor_averaging(badcap)
+                    bad('C19.expdecay_accepts_nonpositive_cap', cap=badcap)
+                except ValueError:
+                    pass
+            oc.nontrivial = [f'expdecay:{cap}']
+            return oc
+        # constructor refusal: every parameter given as a function must be
+        # refused, every constant one accepted
+        import random as _r
+        import torch
+        from kfac.preconditioner import KFACPreconditioner
+        from kfac.scheduler import LambdaParamScheduler
+        from simkfac import hp as hpmod
+
+        rng = _r.Random(plan['seed'])
+        names = list(hpmod.HP_NAMES)
+        callables = {n for n in names if rng.random() < 0.5}
+        kw: dict[str, Any] = {}
+        for n in names:
+            const = 2 if n in hpmod.INT_HPS else 0.5
+            kw[n] = (lambda s, c=const: c) if n in callables else const
+        pre = KFACPreconditioner(torch.nn.Linear(3, 2), **kw)
+        for n in names:
+            oc.stats['refusal_checks'] += 1
+            try:
+                LambdaParamScheduler(pre, **{n + '_lambda': lambda s: 1.0})
+                if n in callables:
+                    bad('C19.callable_parameter_accepted', name=n)
+            except ValueError:
+                if n not in callables:
+                    bad('C19.constant_parameter_refused', name=n)
+        oc.nontrivial = [f'refuse:{sorted(callables)}']
+        return oc
 
 
 class C02(TrainCase):
